@@ -72,7 +72,18 @@ POOL = [
     ("[1, 1, 1]", lambda s: core.to_value([1, 1, 1])),
     ("'aa'", lambda s: V.ValueString("aa")),
     ("2", lambda s: V.ValueInt(2)),
+    # digit strings of a length that is no date format; a _str_ member that
+    # is no function; a prototype chain that leads back to the object
+    ("'123456789'", lambda s: V.ValueString("123456789")),
+    ("<*_str_ = 5*>", lambda s: core.to_value(("obj", [("_str_", 5)]))),
+    ("<*a = 1, _proto_ = itself*>", lambda s: _selfproto()),
 ]
+def _selfproto():
+    o = core.to_value(("obj", [("a", 1)]))
+    o.addItem("_proto_", o)
+    return o
+
+
 SUBPOOL = ["NULL", "TRUE", "0", "-1", "3", "1.5", "''", "'abc'", "[]",
            "[1, 2, 3]", "<<1, 'a'>>", "<<<'a' => 1, 2 => [3]>>>",
            "<*a = 1, f = fn(self) 1*>", "fn(x) x", "<*_str_ = fn(self) 1*>",
@@ -161,7 +172,7 @@ class SweepSession:
         F.seed = 1
         node = self.form(len(args), named)
         core.set_fuel(30000, 30000)
-        core.arm(10.0)
+        core.arm(4.0)
         try:
             o = core.outcome_raw(lambda: node.evaluate(env))
             if o[0] == "value" and not (
